@@ -158,3 +158,17 @@ CHECKS.update({
         "note": "Trusted: namespace model in checks/C10.py (mirrors the documented semantics of debugfs ln/unlink/rm/rmdir); ref/refext4.py dirhash and directory parser.",
     },
 })
+
+CHECKS.update({
+    "C11": {
+        "level": "exploration",
+        "technique": SIM + "sequences of tune2fs requests on seeded populated filesystems with the simulated clock advanced, moved far ahead or jumped backwards between the steps; requested setting, collateral settings, tree digest and every checksum judged by the independent reader, consistency by e2fsck -fn",
+        "text": ("Sequences of 1-5 tune2fs requests (metadata_csum, uninit_bg, journal add/remove, quota/project quota, extents, csum seed, UUID, "
+                 "inode size, flag-style features, label, reserved blocks, error behaviour, counts and intervals, mount options, RAID hints, hash "
+                 "algorithm) run on seeded populated filesystems.  For each accepted request: the requested setting is in effect, every other "
+                 "setting of the list and every unrelated feature bit keeps its value, the tree digest is unchanged, and -- directly, or after the "
+                 "e2fsck -fy that tune2fs asked for has exited 0/1 -- e2fsck -fn is clean and the independent checker verifies every checksum "
+                 "under the new seed/UUID.  Refused requests are counted and what they leave behind is measured, not judged.  Sampling."),
+        "note": "Trusted: ref/refext4.py; simclock feeds every time source tune2fs and e2fsck reach (s_lastcheck/s_mtime comparisons).",
+    },
+})
